@@ -17,6 +17,11 @@ RULE = ("unit expressions are generated from structured item lists (prefix, tabl
         "exponent; compound expressions against their base-unit expansion and against symbol-wise replacements; "
         "reciprocal dimension pairs (x != 0); bare number -> rad / mrad / other powers of rad / deg / sr; pairs of "
         "differing dimension (refusal + quantity left as it was); triples u,w,v for round trip and path independence; "
+        "the target unit is named in every supported way (string, BaseUnits, dict of exponents, Quantity of magnitude 1 "
+        "or another magnitude, Unit().attr, Unit(expr), scaled unit tm*Unit(expr)); histories of 3-8 operations on ONE "
+        "Quantity object (scalar or array, source units of factor 1 favoured: value(v) must not change it, to(v) changes it, "
+        "reads) and on ONE long-lived Unit() instance (an attribute is converted / used in arithmetic, then the same attribute is used again "
+        "as target or source; expected values are history-free x*f(u)/f(v)); "
         "the documented examples; values from {0, +-1, +-pi, 1e+-30, k*5e-324, random, arrays}. "
         "non-trivial = conversion between two different expressions; distinct = (u, v, value) text")
 ASSUMPTIONS = [
@@ -24,6 +29,8 @@ ASSUMPTIONS = [
     "cross products) is integer equality",
     "the unit parser is C03's: an expression is used only if BaseUnits(expr) reads it as the intended (unitid, exponent) "
     "list, otherwise it is skipped; numeric literals inside a target expression (BaseUnits drops them) are not generated",
+    "a Quantity-valued target has a scalar magnitude; value() is exercised with string/BaseUnits/dict targets only (it does "
+    "not accept a Quantity)",
     "float magnitudes only (no Decimal); results outside [1e-290, 1e290] (overflow, underflow, subnormals) are compared "
     "for accept/refuse but not numerically",
     "reciprocal conversion is judged for x != 0 only (scalar 0 raises ZeroDivisionError, array 0 gives inf)",
@@ -41,6 +48,7 @@ EXTRA_OBLIGATIONS = []
 
 EXPS = [(1, 1), (1, 1), (1, 1), (2, 1), (-1, 1), (3, 1), (1, 2), (-3, 2), (-2, 1), (2, 3)]
 SCALARS = [0.0, 1.0, -1.0, math.pi, -math.pi, 1e30, 1e-30, 2.5, -123456.789, 6.02e23, 1e-9]
+QUANTITY_FORMS = ("q1", "qm", "unitattr", "unitcall", "scaled-unit")
 FLOAT_EXC = ("ZeroDivisionError", "OverflowError", "FloatingPointError")
 ARRAYS = [[0.0, 1.0, -2.5], [1e-3, math.pi, 1e30], [5e-324, -1.0, 7.0, 1e-30]]
 
@@ -109,10 +117,24 @@ def replace_items(cat, rng, items, groups, sign=1):
     return out
 
 
-def make_case(cat, rng, stream, x, iu, iv, render_rng=None):
+FORMS = ["str", "str", "str", "baseunits", "dict", "q1", "qm", "qm", "unitattr", "unitcall", "scaled-unit"]
+TARGET_MAGS = [2.0, 0.5, -3.0, 1e3, 10.0, 7.25]
+
+
+def make_case(cat, rng, stream, x, iu, iv, render_rng=None, form=None):
+    """`form` = the way the target unit v is named: a string, a BaseUnits object, a dict of
+    exponents, a Quantity of magnitude 1 / another magnitude, a `Unit()` attribute, `Unit(v)`,
+    or a scaled unit `tm*Unit(v)`."""
     eu = U.render_items(iu, render_rng)
     ev = U.render_items(iv, render_rng)
-    return {"stream": stream, "x": x, "iu": iu, "iv": iv, "eu": eu, "ev": ev}
+    if form is None:
+        form = rng.choice(FORMS) if stream != "corpus" else "str"
+    tm = None
+    if form in ("qm", "scaled-unit"):
+        tm = rng.choice(TARGET_MAGS)
+    elif form in ("q1", "unitattr", "unitcall"):
+        tm = 1.0
+    return {"stream": stream, "x": x, "iu": iu, "iv": iv, "eu": eu, "ev": ev, "form": form, "tm": tm}
 
 
 def gen_cases(ctx, cat, scale):
@@ -144,6 +166,13 @@ def gen_cases(ctx, cat, scale):
     ]
     for x, iu, iv in doc:
         cases.append(make_case(cat, rng, "corpus", x, iu, iv))
+    # the target named in every other way (documented: Quantity(3,'km').to(Unit().m))
+    for form in ("baseunits", "dict", "q1", "qm", "unitattr", "unitcall", "scaled-unit"):
+        for x, iu, iv in [(3.0, [("k", "m", (1, 1))], [(None, "m", (1, 1))]),
+                          (4.0, [(None, "Hz", (1, 1))], [(None, "s", (1, 1))]),
+                          (50.0, [(None, "Ohm", (1, 1))], [("m", "S", (1, 1))]),
+                          (6.0, [(None, "m", (1, 1))], [(None, "s", (1, 1))])]:
+            cases.append(make_case(cat, rng, "corpus-forms", x, iu, iv, form=form))
     # -- all / sampled ordered pairs of table symbols sharing a dimension
     pairs = [(u, v) for g in groups.values() for u in g for v in g]
     if not thorough:
@@ -223,11 +252,40 @@ def gen_cases(ctx, cat, scale):
 
 
 # ------------------------------------------------------------------ real code
-def run_impl(case):
+def items_dict(cat, items):
+    """the dict form of a unit: {unitid: int | (num, den)} (a fresh dict: BaseUnits keeps and edits it)"""
+    return {cat.unitid(p, s): (n if d == 1 else (n, d)) for p, s, (n, d) in items}
+
+
+def make_target(cat, case):
+    """the target object handed to value()/to(), built afresh for every call"""
+    from scinumtools.units import Quantity, Unit
+    from scinumtools.units.base_units import BaseUnits
+    form, ev = case.get("form", "str"), case["ev"]
+    if form == "str":
+        return ev
+    if form == "baseunits":
+        return BaseUnits(ev)
+    if form == "dict":
+        return items_dict(cat, case["iv"])
+    if form in ("q1", "qm"):
+        return Quantity(case["tm"], ev)
+    if form == "unitattr":
+        return getattr(Unit(), ev)
+    if form == "unitcall":
+        return Unit(ev)
+    if form == "scaled-unit":
+        return case["tm"] * Unit(ev)
+    raise ValueError(form)
+
+
+def run_impl(case, cat=None):
     import numpy as np
     from scinumtools.units import Quantity
+    cat = cat or U.Catalog()
     x = case["x"]
     out = {}
+    qform = case.get("form", "str") in QUANTITY_FORMS
     with warnings.catch_warnings(), np.errstate(all="ignore"):
         warnings.simplefilter("ignore")
         try:
@@ -236,14 +294,22 @@ def run_impl(case):
             return {"init": "err:%s" % type(e).__name__}
         out["before"] = U.snapshot(q)
         out["units0"] = list(q.baseunits.units)
-        try:
-            out["value"] = U.as_list(q.value(case["ev"]))
-        except Exception as e:
-            out["value"] = "err"
-            out["value_exc"] = type(e).__name__
+        if qform:
+            out["value"] = "n/a"       # value() takes a unit expression, not a Quantity
+        else:
+            try:
+                out["value"] = U.as_list(q.value(make_target(cat, case)))
+            except Exception as e:
+                out["value"] = "err"
+                out["value_exc"] = type(e).__name__
         out["mid"] = U.snapshot(q)
         try:
-            q.to(case["ev"])
+            target = make_target(cat, case)
+            out["target_expr"] = target.baseunits.expression if qform else target_expression(case["ev"])
+        except Exception as e:
+            return {"init": "err-target:%s" % type(e).__name__}
+        try:
+            q.to(target)
             out["to"] = True
         except Exception as e:
             out["to"] = False
@@ -251,6 +317,8 @@ def run_impl(case):
         out["after"] = U.snapshot(q)
         out["after_val"] = U.as_list(q.magnitude.value)
         out["after_units"] = list(q.baseunits.units)
+        if qform:
+            out["target_after"] = U.snapshot(target)
     return out
 
 
@@ -264,37 +332,45 @@ def judge(ctx, cat, case, imp, res, report=True):
     (kind, signature, text)."""
     found = []
     x = case["x"]
+    form = case.get("form", "str")
+    qform = form in QUANTITY_FORMS
     replay = {"stream": case["stream"], "x": x, "u": case["eu"], "v": case["ev"],
-              "iu": case["iu"], "iv": case["iv"]}
+              "iu": case["iu"], "iv": case["iv"], "form": form, "tm": case.get("tm")}
     frac = any(d != 1 for _, _, (n, d) in case["iu"] + case["iv"])
     rtol = 1e-9 if frac else 1e-12
     xs = U.as_list(x)
     spec = res["spec"]
     kind = spec["kind"]
     sval = U.mag_back(spec["val"])
+    if qform and sval is not None:      # in multiples of the target quantity
+        sval = [v / case["tm"] for v in U.as_list(sval)]
     f1, f2 = U.b2f(spec["f1"]), U.b2f(spec["f2"])
     numeric_ok = U.in_float_range([f1, f2]) and U.in_float_range([v * f1 for v in xs]) and \
         (sval is None or U.in_float_range(sval)) and U.in_float_range(xs, lo=1e-300)
+    mto = res["toq"] if qform else res["to"]
+    tname = "to(%s target)" % form
     # ---------- impl vs model
     mv = res["value"]
     m_ok = "ok" in mv
-    i_ok = imp["value"] != "err"
+    i_ok = imp["value"] not in ("err", "n/a")
     det = None
     float_exc = (not numeric_ok) and (imp.get("value_exc") in FLOAT_EXC or imp.get("to_exc") in FLOAT_EXC)
-    if float_exc:
+    if mto is None:
+        det = "driver gave no Quantity-target result"
+    elif float_exc:
         ctx.count("unjudged.float-exception")   # e.g. 1/(x*f) with x*f underflowing to 0
-    elif m_ok != i_ok:
+    elif not qform and m_ok != i_ok:
         det = "value(): impl %s, model %s" % ("ok" if i_ok else "raises " + imp.get("value_exc", ""), mv)
-    elif m_ok and numeric_ok and not U.close(imp["value"], U.mag_back(mv["ok"]), rtol):
+    elif not qform and m_ok and numeric_ok and not U.close(imp["value"], U.mag_back(mv["ok"]), rtol):
         det = "value(): impl %r, model %r" % (imp["value"], U.mag_back(mv["ok"]))
-    elif res["to"]["ok"] != imp["to"]:
-        det = "to(): impl ok=%s, model ok=%s" % (imp["to"], res["to"]["ok"])
-    elif numeric_ok and not U.close(imp["after_val"], U.mag_back(res["to"]["val"]), rtol):
-        det = "state after to(): impl %r, model %r" % (imp["after_val"], U.mag_back(res["to"]["val"]))
-    elif res["to"]["tag"] == 0 and imp["after"] != imp["before"]:
+    elif mto["ok"] != imp["to"]:
+        det = "%s: impl ok=%s, model ok=%s" % (tname, imp["to"], mto["ok"])
+    elif numeric_ok and not U.close(imp["after_val"], U.mag_back(mto["val"]), rtol):
+        det = "state after %s: impl %r, model %r" % (tname, imp["after_val"], U.mag_back(mto["val"]))
+    elif mto["tag"] == 0 and imp["after"] != imp["before"]:
         det = "model keeps the state, impl changed it: %r -> %r" % (imp["before"], imp["after"])
-    elif res["to"]["tag"] == 1 and imp["after_units"] != res["to"]["units"]:
-        det = "units after to(): impl %r, model %r" % (imp["after_units"], res["to"]["units"])
+    elif mto["tag"] == 1 and imp["after_units"] != mto["units"]:
+        det = "units after %s: impl %r, model %r" % (tname, imp["after_units"], mto["units"])
     elif imp["units0"] != res["init"]["units"]:
         det = "units after construction: impl %r, model %r" % (imp["units0"], res["init"]["units"])
     if det:
@@ -303,42 +379,50 @@ def judge(ctx, cat, case, imp, res, report=True):
     # a dimensionless compound (m/km) that Quantity.__init__ folded completely into a bare number
     u_nodim_nonempty = bool(case["iu"]) and all(d == 0 for d in cat.dims_of_items(case["iu"])) and \
         res["init"]["units"] == [] and imp["units0"] == []
-    if kind == "refuse":
+    v_folded = qform and all(d == 0 for d in cat.dims_of_items(case["iv"])) and mto is not None and mto["units"] == [] \
+        and bool(case["iv"])
+    sfx = ":quantity-target" if qform else ""
+    if v_folded and kind != "same":
+        ctx.count("unjudged.folded-target")
+    elif kind == "refuse":
         single_rad = len(case["iv"]) == 1 and case["iv"][0][1] == "rad"
         if u_nodim_nonempty and single_rad:
             ctx.count("unjudged.folded-number-to-rad")
         elif i_ok or imp["to"]:
-            found.append(("violation", "refuse:accepted",
-                          "conversion between different dimensions %s -> %s is not refused: value()=%s, to() ok=%s"
-                          % (case["eu"], case["ev"], imp["value"], imp["to"])))
+            found.append(("violation", "refuse:accepted" + sfx,
+                          "conversion between different dimensions %s -> %s (%s) is not refused: value()=%s, to() ok=%s"
+                          % (case["eu"], case["ev"], form, imp["value"], imp["to"])))
         elif imp["after"] != imp["before"] or imp["mid"] != imp["before"]:
-            found.append(("violation", "refuse:state-changed",
-                          "refused conversion %s -> %s changed the quantity: %r -> %r"
-                          % (case["eu"], case["ev"], imp["before"], imp["after"])))
+            found.append(("violation", "refuse:state-changed" + sfx,
+                          "refused conversion %s -> %s (target given as %s%s) changed the quantity: %r -> %r"
+                          % (case["eu"], case["ev"], form, "" if not qform else " of magnitude %r" % case["tm"],
+                             imp["before"], imp["after"])))
     else:
         if kind == "reciprocal" and any(v == 0 for v in xs):
             ctx.count("unjudged.reciprocal-of-zero")
         elif float_exc:
             pass
-        elif not i_ok or not imp["to"]:
-            found.append(("violation", "%s:refused" % kind,
-                          "%s conversion %s -> %s of %r is refused (%s)" %
-                          (kind, case["eu"], case["ev"], x, imp.get("value_exc") or imp.get("to_exc"))))
+        elif (not qform and not i_ok) or not imp["to"]:
+            found.append(("violation", "%s:refused%s" % (kind, sfx),
+                          "%s conversion %s -> %s (%s) of %r is refused (%s)" %
+                          (kind, case["eu"], case["ev"], form, x, imp.get("value_exc") or imp.get("to_exc"))))
         elif not numeric_ok:
             ctx.count("unjudged.float-range")
         else:
-            if not U.close(imp["value"], sval, rtol):
+            want_v = U.mag_back(spec["val"])
+            if not qform and not U.close(imp["value"], want_v, rtol):
                 found.append(("violation", "%s:value" % kind,
-                              "%s -> %s of %r: value() gives %r, the property prescribes %r" %
-                              (case["eu"], case["ev"], x, imp["value"], sval)))
+                              "%s -> %s (%s) of %r: value() gives %r, the property prescribes %r" %
+                              (case["eu"], case["ev"], form, x, imp["value"], want_v)))
             elif not U.close(imp["after_val"], sval, rtol):
-                found.append(("violation", "%s:to-value" % kind,
-                              "%s -> %s of %r: to() leaves %r, the property prescribes %r" %
-                              (case["eu"], case["ev"], x, imp["after_val"], sval)))
-            elif imp["after"][1] != target_expression(case["ev"]):
-                found.append(("violation", "%s:to-units" % kind,
-                              "%s -> %s: after to() the quantity reports units %r" %
-                              (case["eu"], case["ev"], imp["after"][1])))
+                found.append(("violation", "%s:to-value%s" % (kind, sfx),
+                              "%s -> %s of %r with the target given as %s%s: to() leaves %r, the property prescribes %r" %
+                              (case["eu"], case["ev"], x, form, "" if not qform else " of magnitude %r" % case["tm"],
+                               imp["after_val"], sval)))
+            elif imp["after"][1] != imp["target_expr"]:
+                found.append(("violation", "%s:to-units%s" % (kind, sfx),
+                              "%s -> %s (%s): after to() the quantity reports units %r" %
+                              (case["eu"], case["ev"], form, imp["after"][1])))
             elif imp["mid"] != imp["before"]:
                 found.append(("violation", "value:state-changed",
                               "value(%s) changed the quantity %r -> %r" % (case["ev"], imp["before"], imp["mid"])))
@@ -351,6 +435,13 @@ def judge(ctx, cat, case, imp, res, report=True):
     return found
 
 
+def conv_req(cat, c):
+    r = {"k": "conv", "x": U.mag_req(c["x"]), "u": cat.req_items(c["iu"]), "v": cat.req_items(c["iv"])}
+    if c.get("form", "str") in QUANTITY_FORMS:
+        r["tm"] = U.f2b(c["tm"])
+    return r
+
+
 def run_cases(ctx, cat, cases):
     usable = []
     for c in cases:
@@ -359,20 +450,21 @@ def run_cases(ctx, cat, cases):
             usable.append(c)
         else:
             ctx.count("skipped.parser-reads-differently")
-    reqs = [{"k": "conv", "x": U.mag_req(c["x"]), "u": cat.req_items(c["iu"]), "v": cat.req_items(c["iv"])}
-            for c in usable]
+    reqs = [conv_req(cat, c) for c in usable]
     res = ctx.driver.ask_many(reqs)
     for c, r in zip(usable, res):
         ctx.count("stream." + c["stream"])
-        canon = "%s|%s|%r" % (c["eu"], c["ev"], c["x"])
+        canon = "%s|%s|%r|%s|%r" % (c["eu"], c["ev"], c["x"], c.get("form"), c.get("tm"))
         ctx.case(canon, c["eu"] != c["ev"], {"x": c["x"], "u": c["eu"], "v": c["ev"]} if c["stream"] != "corpus" else None)
         if "ok" not in r:
             ctx.disagreement(c["stream"], {"x": c["x"], "u": c["eu"], "v": c["ev"]}, "driver error %s" % r)
             continue
-        imp = run_impl(c)
+        imp = run_impl(c, cat)
         if "init" in imp:
-            ctx.disagreement(c["stream"], {"x": c["x"], "u": c["eu"]}, "Quantity() construction failed: %s" % imp["init"])
+            ctx.disagreement(c["stream"], {"x": c["x"], "u": c["eu"], "v": c["ev"], "form": c.get("form")},
+                             "Quantity()/target construction failed: %s" % imp["init"])
             continue
+        ctx.count("form." + c.get("form", "str"))
         ctx.count("spec." + r["ok"]["spec"]["kind"])
         ctx.count("value." + ("array" if isinstance(c["x"], list) else "scalar"))
         judge(ctx, cat, c, imp, r["ok"])
@@ -422,6 +514,286 @@ def triple_stream(ctx, cat, count):
                           {"stream": "triple", "x": x, "u": eu, "w": ew, "v": ev})
 
 
+# ------------------------------------------------------------------ histories on one Quantity object
+def gen_quantity_history(cat, rng, groups):
+    """one quantity (scalar or array), then a sequence of value(v) (must not change it), to(v) (changes it) and
+    reads, with the targets named in all ways; every expected number is x*f(u0)/f(v) (over the target magnitudes)"""
+    g = rng.choice(groups)
+    ones = [s for s in g if cat.units[s][0] == 1.0]
+    u0s = rng.choice(ones) if ones and rng.random() < 0.6 else rng.choice(g)
+    iu = [(None if rng.random() < 0.6 else pick_prefix(cat, rng, u0s), u0s, (1, 1))]
+    x = rng.choice([[2.0, -0.5, 0.0, 1e30], [1.0, 2.0, 4.0], [7.25]]) if rng.random() < 0.6 else rng.choice([3.0, 7.25, -0.5, 1e6])
+    ops = []
+    for _ in range(rng.randint(3, 6)):
+        t = rng.choice(g)
+        iv = [(pick_prefix(cat, rng, t), t, (1, 1))]
+        r = rng.random()
+        if r < 0.45:
+            ops.append({"op": "value", "iv": iv, "form": rng.choice(["str", "str", "baseunits", "dict"]), "tm": None})
+        elif r < 0.85:
+            form = rng.choice(FORMS)
+            tm = rng.choice(TARGET_MAGS) if form in ("qm", "scaled-unit") else (1.0 if form in QUANTITY_FORMS else None)
+            ops.append({"op": "to", "iv": iv, "form": form, "tm": tm})
+        else:
+            ops.append({"op": "read", "iv": None, "form": None, "tm": None})
+    return x, iu, ops
+
+
+def run_quantity_history(cat, x, iu, ops):
+    import numpy as np
+    from scinumtools.units import Quantity
+    out = []
+    with warnings.catch_warnings(), np.errstate(all="ignore"):
+        warnings.simplefilter("ignore")
+        q = Quantity(list(x) if isinstance(x, list) else x, U.render_items(iu))
+        for o in ops:
+            try:
+                if o["op"] == "read":
+                    out.append((U.as_list(q.value()), q.units()))
+                    continue
+                target = make_target(cat, {"form": o["form"], "ev": U.render_items(o["iv"]), "iv": o["iv"], "tm": o["tm"]})
+                if o["op"] == "value":
+                    out.append((U.as_list(q.value(target)), None))
+                else:
+                    q.to(target)
+                    out.append((U.as_list(q.value()), q.units()))
+            except Exception as e:
+                out.append(("err", repr(e)[:120]))
+    return out
+
+
+def quantity_history_stream(ctx, cat, count):
+    from harness.util import shrink_list
+    rng = ctx.rng
+    groups = [g for g in cat.by_dimension(cat.linear).values() if len(g) >= 2]
+    hist = [([1.0, 2.0, 4.0], [(None, "m", (1, 1))],
+             [{"op": "value", "iv": [("k", "m", (1, 1))], "form": "str", "tm": None},
+              {"op": "value", "iv": [("c", "m", (1, 1))], "form": "str", "tm": None},
+              {"op": "read", "iv": None, "form": None, "tm": None},
+              {"op": "to", "iv": [("m", "m", (1, 1))], "form": "unitattr", "tm": 1.0}])]
+    for _ in range(count):
+        hist.append(gen_quantity_history(cat, rng, groups))
+    hist = [(x, iu, ops) for x, iu, ops in hist
+            if U.parsed_as_expected(cat, U.render_items(iu), iu)
+            and all(o["iv"] is None or U.parsed_as_expected(cat, U.render_items(o["iv"]), o["iv"]) for o in ops)]
+    reqs = []
+    for x, iu, ops in hist:
+        cur = iu
+        for o in ops:
+            tgt = o["iv"] if o["iv"] is not None else cur
+            reqs.append({"k": "conv", "x": U.mag_req(x), "u": cat.req_items(iu), "v": cat.req_items(tgt)})
+            if o["op"] == "to":
+                cur = o["iv"]
+    res = iter(ctx.driver.ask_many(reqs))
+
+    def first_failure(x, iu, ops, exps):
+        got = run_quantity_history(cat, x, iu, ops)
+        for i, (o, g, (want, wunits)) in enumerate(zip(ops, got, exps)):
+            if g[0] == "err":
+                return i, "raises %s" % g[1]
+            if not (U.in_float_range(want) and U.in_float_range(g[0])):
+                continue
+            if not U.close(g[0], want, 1e-12):
+                return i, "gives %r, x*factor(u)/factor(v) is %r" % (g[0], want)
+            if wunits is not None and g[1] != wunits:
+                return i, "reports units %r instead of %r" % (g[1], wunits)
+        return None
+
+    for x, iu, ops in hist:
+        rs = [next(res) for _ in ops]
+        ctx.count("stream.quantity-history")
+        ctx.count("quantity-history." + ("array" if isinstance(x, list) else "scalar"))
+        ctx.case("qhistory|%r|%s|%s" % (x, U.render_items(iu), "|".join("%s:%s:%s:%r" % (o["op"], U.render_items(o["iv"]) if o["iv"] else "", o["form"], o["tm"]) for o in ops)),
+                 True, None)
+        if any("ok" not in r or r["ok"]["spec"]["val"] is None for r in rs):
+            ctx.disagreement("quantity-history", {"x": x, "u": U.render_items(iu), "ops": ops}, "driver: %s" % [r.get("error") for r in rs])
+            continue
+        exps, scale, cur = [], 1.0, iu
+        for o, r in zip(ops, rs):
+            sval = U.as_list(U.mag_back(r["ok"]["spec"]["val"]))
+            if o["op"] == "to":
+                scale *= (o["tm"] or 1.0)
+                cur = o["iv"]
+            exps.append(([v / scale for v in sval], None if o["op"] == "value" else target_expression(U.render_items(cur))))
+        f = first_failure(x, iu, ops, exps)
+        if f is None:
+            continue
+        pairs = list(zip(ops, exps))[:f[0] + 1]
+        ops_small, why = [c[0] for c in pairs], f[1]
+        if all(o["op"] != "to" for o in ops_small[:-1]) and len(ctx.violations) < 3:
+            # only non-mutating steps before the failing one: they can be dropped without changing what is expected
+            def fails(cand):
+                if cand[-1] is not pairs[-1]:
+                    return False
+                ff = first_failure(x, iu, [c[0] for c in cand], [c[1] for c in cand])
+                return ff is not None and ff[0] == len(cand) - 1
+            small = shrink_list(pairs, fails, max_steps=40)
+            ops_small = [c[0] for c in small]
+            ff = first_failure(x, iu, ops_small, [c[1] for c in small])
+            why = ff[1] if ff else why
+        last = ops_small[-1]
+        ctx.violation("quantity-history:%s" % last["op"],
+                      "Quantity(%r, %r) after %s: %s(%s) %s" %
+                      (x, U.render_items(iu), [(o["op"], U.render_items(o["iv"]) if o["iv"] else None, o["form"]) for o in ops_small[:-1]],
+                       last["op"], U.render_items(last["iv"]) if last["iv"] else "", why),
+                      {"stream": "quantity-history", "x": x, "iu": iu, "ops": ops_small})
+
+
+# ------------------------------------------------------------------ histories on one long-lived Unit() instance
+def gen_unit_history(cat, rng, groups):
+    """a short operation sequence on one `unit = Unit()`: unit attributes are converted, then the
+    same attributes are used again as conversion targets / sources"""
+    g = rng.choice(groups)
+    syms = [rng.choice(g) for _ in range(3)]
+    attrs = [[(pick_prefix(cat, rng, s), s, (1, 1))] for s in syms[:2]]
+    others = [[(pick_prefix(cat, rng, s), s, (1, 1))] for s in syms]
+    ops = []
+    for _ in range(rng.randint(3, 8)):
+        a = rng.choice(attrs)
+        o = rng.choice(others)
+        x = rng.choice([3.0, 7.25, -0.5, 1e6, 2.0, [2.0, -0.5, 1e30]])
+        k = rng.choice(["attr_to", "attr_to", "target", "target", "source", "attr_value", "attr_is_one",
+                        "scaled_target", "attr_arith"])
+        if k == "attr_to":
+            ops.append({"op": k, "x": 1.0, "iu": a, "iv": o})
+        elif k == "target":
+            ops.append({"op": k, "x": x, "iu": o, "iv": a, "tm": 1.0})
+        elif k == "scaled_target":
+            ops.append({"op": k, "x": x, "iu": o, "iv": a, "tm": rng.choice(TARGET_MAGS)})
+        elif k == "source":
+            ops.append({"op": k, "x": x, "iu": a, "iv": o})
+        elif k == "attr_value":
+            ops.append({"op": k, "x": 1.0, "iu": a, "iv": o})
+        elif k == "attr_is_one":
+            ops.append({"op": k, "x": 1.0, "iu": a, "iv": a})
+        else:
+            ops.append({"op": k, "x": 5.0, "iu": a, "iv": a})
+    return ops
+
+
+def run_unit_history(ops):
+    """executes the sequence on the real code with ONE Unit() instance; per op (values, units) or 'err'"""
+    import numpy as np
+    from scinumtools.units import Quantity, Unit
+    unit = Unit()
+    out = []
+    with warnings.catch_warnings(), np.errstate(all="ignore"):
+        warnings.simplefilter("ignore")
+        for o in ops:
+            eu, ev = U.render_items(o["iu"]), U.render_items(o["iv"])
+            x = list(o["x"]) if isinstance(o["x"], list) else o["x"]
+            try:
+                k = o["op"]
+                if k == "attr_to":
+                    r = getattr(unit, eu).to(ev)
+                    out.append((U.as_list(r.value()), r.units()))
+                elif k == "target":
+                    r = Quantity(x, eu).to(getattr(unit, ev))
+                    out.append((U.as_list(r.value()), r.units()))
+                elif k == "scaled_target":
+                    r = Quantity(x, eu).to(o["tm"] * getattr(unit, ev))
+                    out.append((U.as_list(r.value()), r.units()))
+                elif k == "source":
+                    out.append((U.as_list(Quantity(x, getattr(unit, eu)).value(ev)), None))
+                elif k == "attr_value":
+                    out.append((U.as_list(getattr(unit, eu).value(ev)), None))
+                elif k == "attr_is_one":
+                    r = getattr(unit, eu)
+                    out.append((U.as_list(r.value()), r.units()))
+                else:
+                    r = 5 * getattr(unit, eu)
+                    out.append((U.as_list(r.value()), r.units()))
+            except Exception as e:
+                out.append(("err", repr(e)[:120]))
+    return out
+
+
+def unit_history_stream(ctx, cat, count):
+    from harness.util import shrink_list
+    rng = ctx.rng
+    groups = [g for g in cat.by_dimension([s for s in cat.linear if not s.startswith(("#", "["))]).values() if len(g) >= 2]
+    seqs = [
+        # corpus: a unit attribute is converted, later the same attribute names the target / source
+        [{"op": "attr_to", "x": 1.0, "iu": [(None, "m", (1, 1))], "iv": [("k", "m", (1, 1))]},
+         {"op": "target", "x": 3.0, "iu": [("k", "m", (1, 1))], "iv": [(None, "m", (1, 1))], "tm": 1.0},
+         {"op": "source", "x": 2.0, "iu": [(None, "m", (1, 1))], "iv": [("c", "m", (1, 1))]},
+         {"op": "attr_is_one", "x": 1.0, "iu": [(None, "m", (1, 1))], "iv": [(None, "m", (1, 1))]}],
+    ]
+    for _ in range(count):
+        seqs.append(gen_unit_history(cat, rng, groups))
+    seqs = [q for q in seqs if all(U.parsed_as_expected(cat, U.render_items(o[k]), o[k]) for o in q for k in ("iu", "iv"))]
+    reqs = []
+    for q in seqs:
+        for o in q:
+            r = {"k": "conv", "x": U.mag_req(o["x"]), "u": cat.req_items(o["iu"]), "v": cat.req_items(o["iv"])}
+            if "tm" in o:
+                r["tm"] = U.f2b(o["tm"])
+            reqs.append(r)
+    res = iter(ctx.driver.ask_many(reqs))
+
+    def expected(o, r):
+        """(spec values, model values, units text) — independent of whatever happened before"""
+        sval = U.as_list(U.mag_back(r["spec"]["val"])) if r["spec"]["val"] is not None else None
+        tm = o.get("tm", 1.0)
+        k = o["op"]
+        if k in ("target", "scaled_target"):
+            return [v / tm for v in sval], U.as_list(U.mag_back(r["toq"]["val"])), target_expression(U.render_items(o["iv"]))
+        if k == "attr_to":
+            return sval, U.as_list(U.mag_back(r["to"]["val"])), target_expression(U.render_items(o["iv"]))
+        if k in ("source", "attr_value"):
+            return sval, U.as_list(U.mag_back(r["value"]["ok"])) if "ok" in r["value"] else None, None
+        return U.as_list(o["x"]), U.as_list(o["x"]), target_expression(U.render_items(o["iu"]))
+
+    def first_failure(q, exps):
+        got = run_unit_history(q)
+        for i, (o, g, (sv, mv, un)) in enumerate(zip(q, got, exps)):
+            if g[0] == "err":
+                return i, "spec", "raises %s" % g[1]
+            if not (U.in_float_range(sv) and U.in_float_range(g[0])):
+                continue
+            if not U.close(g[0], sv, 1e-12):
+                return i, "spec", "gives %r, x*factor(u)/factor(v) is %r" % (g[0], sv)
+            if un is not None and g[1] != un:
+                return i, "spec", "reports units %r instead of %r" % (g[1], un)
+            if mv is not None and not U.close(g[0], mv, 1e-12):
+                return i, "model", "gives %r, model %r" % (g[0], mv)
+        return None
+
+    for q in seqs:
+        rs = [next(res) for _ in q]
+        ctx.count("stream.unit-history")
+        ctx.count("unit-history.ops", len(q))
+        ctx.case("history|%s" % "|".join("%s:%s>%s:%r" % (o["op"], U.render_items(o["iu"]), U.render_items(o["iv"]), o["x"]) for o in q),
+                 True, {"unit_history": [[o["op"], U.render_items(o["iu"]), U.render_items(o["iv"])] for o in q][:6]} if len(q) >= 4 else None)
+        if any("ok" not in r for r in rs):
+            ctx.disagreement("unit-history", {"ops": q}, "driver error")
+            continue
+        exps = [expected(o, r["ok"]) for o, r in zip(q, rs)]
+        f = first_failure(q, exps)
+        if f is None:
+            continue
+        # shortest history that still makes its last operation fail
+        pairs = list(zip(q, exps))[:f[0] + 1]
+
+        def fails(cand):
+            if cand[-1] is not pairs[-1]:
+                return False
+            ff = first_failure([c[0] for c in cand], [c[1] for c in cand])
+            return ff is not None and ff[0] == len(cand) - 1
+        small = shrink_list(pairs, fails, max_steps=60) if len(ctx.violations) < 3 else pairs
+        ops_small = [c[0] for c in small]
+        ff = first_failure(ops_small, [c[1] for c in small]) or f
+        last = ops_small[-1]
+        text = ("on one Unit() instance, after %s: %s %s -> %s %s" %
+                ([(o["op"], U.render_items(o["iu"]), U.render_items(o["iv"])) for o in ops_small[:-1]],
+                 last["op"], U.render_items(last["iu"]), U.render_items(last["iv"]), ff[2]))
+        replay = {"stream": "unit-history", "ops": ops_small}
+        if ff[1] == "spec":
+            ctx.violation("unit-history:%s" % last["op"], text, replay)
+        else:
+            ctx.disagreement("unit-history", replay, text)
+
+
 def doc_examples(ctx):
     """documented examples verbatim (docs/source/units/conversions.rst)"""
     from scinumtools.units import Quantity
@@ -450,6 +822,8 @@ def correspond(ctx: Ctx, scale=1):
     cases = gen_cases(ctx, cat, scale)
     run_cases(ctx, cat, cases)
     triple_stream(ctx, cat, (4000 if ctx.tier == "thorough" else 400) * scale)
+    quantity_history_stream(ctx, cat, (2000 if ctx.tier == "thorough" else 250) * scale)
+    unit_history_stream(ctx, cat, (1500 if ctx.tier == "thorough" else 150) * scale)
     doc_examples(ctx)
     ctx.extra["exhaustive_part"] = ("all ordered same-dimension pairs of table symbols and every admissible prefix of "
                                     "every symbol" if ctx.tier == "thorough" else "sampled pairs")
@@ -464,16 +838,28 @@ def replay(ctx: Ctx, payload):
     import json
     rp = payload.get("replay", payload)
     print(json.dumps(rp, indent=1, default=str)[:3000])
+    if rp.get("stream") == "quantity-history":
+        cat = U.Catalog()
+        fix = lambda it: [(p, s2, tuple(e)) for p, s2, e in it] if it else None
+        ops = [dict(o, iv=fix(o["iv"])) for o in rp["ops"]]
+        for o, g in zip(ops, run_quantity_history(cat, rp["x"], fix(rp["iu"]), ops)):
+            print(o["op"], U.render_items(o["iv"]) if o["iv"] else "", o["form"], o["tm"], "impl:", g)
+        return 1
+    if rp.get("stream") == "unit-history":
+        got = run_unit_history(rp["ops"])
+        for o, g in zip(rp["ops"], got):
+            print(o["op"], U.render_items([tuple(i[:2]) + (tuple(i[2]),) for i in o["iu"]]), "->",
+                  U.render_items([tuple(i[:2]) + (tuple(i[2]),) for i in o["iv"]]), "impl:", g)
+        return 1
     if "iu" not in rp:
         print("replay: this record has no single conversion input; re-run ./check C04")
         return 2
     cat = U.Catalog()
     case = {"stream": rp.get("stream", "replay"), "x": rp["x"],
             "iu": [(p, s, tuple(e)) for p, s, e in rp["iu"]], "iv": [(p, s, tuple(e)) for p, s, e in rp["iv"]],
-            "eu": rp["u"], "ev": rp["v"]}
-    r = ctx.driver.ask({"k": "conv", "x": U.mag_req(case["x"]), "u": cat.req_items(case["iu"]),
-                        "v": cat.req_items(case["iv"])})
-    imp = run_impl(case)
+            "eu": rp["u"], "ev": rp["v"], "form": rp.get("form", "str"), "tm": rp.get("tm")}
+    r = ctx.driver.ask(conv_req(cat, case))
+    imp = run_impl(case, cat)
     print("impl:", {k: imp[k] for k in ("value", "to", "after_val", "after_units") if k in imp})
     print("spec:", r["ok"]["spec"]["kind"], U.mag_back(r["ok"]["spec"]["val"]))
     found = judge(ctx, cat, case, imp, r["ok"], report=False)
